@@ -130,11 +130,12 @@ def build_test(ctx, spec, sink, style=0):
   test.add_output_callbacks(*cbs)
   for i, c in enumerate(spec['plug_cfg']):
     ctx.plug_cfg[bodies.PLUGS[ctx.tag][i].__name__] = c
+  ctx.dut_percent = bool(spec.get('dut_percent'))
   ts = spec['test_start']
   if ts is None:
     start = None
   elif ts == 'lambda':
-    start = lambda: 'dut_lambda'
+    start = (lambda: 'SN%2Flambda 100%') if spec.get('dut_percent') else (lambda: 'dut_lambda')
   else:
     start = build_phase(ctx, ts, style)
   return test, start, cbs
